@@ -20,7 +20,7 @@ type propPlan struct {
 
 var propPlans = []propPlan{
 	{ID: "C01", Title: "Muxer preserves every accepted access unit",
-		Rules:      []string{"CG0", "F5", "F6", "T6", "N3", "G2"},
+		Rules:      []string{"CG0", "F5", "F6", "F10", "T6", "N3", "G2", "P1"},
 		NotDecided: "byte identity through mediacommon's marshaller; timestamp arithmetic (duration = next - this, base-time contiguity); cross-track interleaving; the result for any particular input.",
 		LevelText:  "Structural necessary conditions of exactly-once delivery of written units (look-ahead hand-off, part drain, payload immutability, skip-until-random-access, the 10 s constant) decided on every CFG path; not the value-level equality itself."},
 	{ID: "C02", Title: "Segment boundaries",
@@ -28,7 +28,7 @@ var propPlans = []propPlan{
 		NotDecided: "PAT/PMT at the start of MPEG-TS segments (emitted inside mediacommon); 'never skipped when due' for inputs without random-access units; the contents of the init segment.",
 		LevelText:  "The cut condition, the pending-parameter typestate of the four video writers, forced-rotation marking and same-instant rotation of all streams are decided on every path; values are not."},
 	{ID: "C03", Title: "Playlist durations, target durations, date-times",
-		Rules:      []string{"CG0", "F1", "G4", "G6", "N2", "S4"},
+		Rules:      []string{"CG0", "F1", "G4", "G4b", "G6", "G10", "N2", "S4"},
 		NotDecided: "equality of declared and actual media time (needs the samples); PART-TARGET >= every part beyond 'ceil of max over listed parts'.",
 		LevelText:  "Telescoping of durations, monotone target duration, rounding directions, hold-back/skip factors and text resolution are decided structurally."},
 	{ID: "C04", Title: "Playlist evolution",
@@ -36,11 +36,11 @@ var propPlans = []propPlan{
 		NotDecided: "the relation between two successive responses (a history property) beyond the per-step invariants; arithmetic on runtime counters.",
 		LevelText:  "Per-step inductive invariants of the window and its counters are decided on every path of the rotation functions."},
 	{ID: "C05", Title: "Advertised URIs are fetchable, immutable, consistent",
-		Rules:      []string{"CG0", "P1", "P2", "P3", "P4", "P5", "F2", "T7"},
+		Rules:      []string{"CG0", "P1", "P2", "P3", "P3b", "P4", "P5", "F2", "T7", "T7b"},
 		NotDecided: "byte equality of a segment and its concatenated parts on disk (offset arithmetic); HTTP semantics outside the handlers.",
 		LevelText:  "Publication protocol: final before published, never written afterwards without the reader's lock, listed = registered, unregistered on expiry, response shape."},
 	{ID: "C06", Title: "Blocking reload, preload hints, delta updates",
-		Rules:      []string{"CG0", "L1", "L2", "L3", "L8", "F3", "G7", "G8", "G9", "N2"},
+		Rules:      []string{"CG0", "L1", "L2", "L3", "L8", "F3", "G7", "G7b", "G8", "G9", "N2"},
 		NotDecided: "which (M,P) are accepted or rejected (unsigned arithmetic on runtime counters); what the unblocked response contains; telling an absent _HLS_part from _HLS_part=0.",
 		LevelText:  "Wait/wake discipline over all schedules, _HLS_* filtering, delta-update shape and roll-over reaching the open segment."},
 	{ID: "C07", Title: "Close unblocks every request and releases storage",
@@ -52,11 +52,11 @@ var propPlans = []propPlan{
 		NotDecided: "absence of every panic (nil dereferences are not modelled); single-playlist invariants of a snapshot; monotonic views.",
 		LevelText:  "Every location shared between writer and request goroutines is co-locked or frozen before publication (lockset + ownership analysis over all contexts); no zero divisor in handler code."},
 	{ID: "C09", Title: "A Client reading a Muxer",
-		Rules:      []string{"CG0", "T4", "T5"},
+		Rules:      []string{"CG0", "T4", "T5", "F11", "F12", "N3"},
 		NotDecided: "sample identity, time-origin arithmetic, AbsoluteTime.",
 		LevelText:  "Agreement of the muxer's and the client's codec and rendition tables."},
 	{ID: "C10", Title: "Client delivers every sample with normalised time",
-		Rules:      []string{"CG0", "G5", "K6", "F8"},
+		Rules:      []string{"CG0", "G5", "K6", "F8", "F11", "F12"},
 		NotDecided: "all timestamp arithmetic (rescaling, 33-bit unwrap, NTP extrapolation); sample identity.",
 		LevelText:  "Thin: no negative-time delivery, all times through the leading converter, the stream/track hand-shake cannot wedge."},
 	{ID: "C11", Title: "Segment selection",
@@ -69,7 +69,7 @@ var propPlans = []propPlan{
 		NotDecided: "nothing further of the structural clauses; timing ('promptly') is not decided.",
 		LevelText:  "Every goroutine is pooled, every blocking operation is cancellable by the pool context, cancel-join-send happens once. Argued sufficient (DESIGN 4, C12) for 'once Wait yields no client goroutine is running, exactly one value is yielded'."},
 	{ID: "C13", Title: "Malformed server content",
-		Rules:      []string{"CG0", "V4a", "V4b", "V4c", "T4", "K6", "K2", "V3"},
+		Rules:      []string{"CG0", "V4a", "V4b", "V4c", "V4d", "T4", "K6", "K2", "V3"},
 		NotDecided: "nil dereferences; busy loops in general; allocation sizes inside mediacommon.",
 		LevelText:  "The enumerated panic sources of client code (type assertions, zero divisors, nil function fields), no silent nil decoder, no wedge on absurd fragment counts."},
 	{ID: "C14", Title: "Marshal/Unmarshal round trip",
@@ -77,15 +77,15 @@ var propPlans = []propPlan{
 		NotDecided: "value-level equality (float formatting of arbitrary values, key inheritance between segments, time zones, sign handling).",
 		LevelText:  "Every field, under the right tag and attribute name, in both directions; what is written can be tokenised back."},
 	{ID: "C15", Title: "Decoder total, encoder grammatical",
-		Rules:      []string{"V1", "V2", "V3", "S1", "S2", "S3", "S5"},
+		Rules:      []string{"V1", "V2", "V3", "V4d", "S1", "S2", "S3", "S5", "F9"},
 		NotDecided: "the full RFC 8216 grammar; termination as such; escaping of caller-supplied strings inside quoted attributes.",
 		LevelText:  "Bounds ledger + validated structure + loop progress for the two playlist packages over all byte strings (modulo nil dereferences); grammar-shape conditions on everything Marshal can emit."},
 	{ID: "C16", Title: "Multivariant playlist",
-		Rules:      []string{"CG0", "F4", "T5", "T4"},
+		Rules:      []string{"CG0", "F4", "F9", "F13", "G11", "T5", "T4"},
 		NotDecided: "which rendition is DEFAULT for a given track list; bandwidth values; RESOLUTION/FRAME-RATE values.",
 		LevelText:  "Query preserved on every URI, rendition attributes carried, CODECS entry per track."},
 	{ID: "C17", Title: "Storage",
-		Rules:      []string{"T7", "P6"},
+		Rules:      []string{"T7", "T7b", "P6"},
 		NotDecided: "byte-for-byte equivalence, offsets, reader cursor logic.",
 		LevelText:  "Thin: no read before Finalize in both backends, mirror writer forwards identically, Remove removes what Create created."},
 	{ID: "C18", Title: "Bounded retention",
